@@ -100,16 +100,16 @@ Definition set_state (s : sdb) (a : addr) (k : key) (v : word) : sdb :=
   else set_objs (push s1 (EStorage a k prev)) a (Some (w_dirty o1 k v)).
 
 (* commitCtx into a target store; returns new target and the sdb with dirties reset / origin updated *)
-Definition flush_obj (rep : bool) (a : addr) (o : obj) (t : store) : store * obj :=
+Definition flush_obj (a : addr) (o : obj) (t : store) : store * obj :=
   let t1 := {| accs := upd (accs t) a (Some {| a_bal := bal o; a_nonce := nonce o |}); stor := stor t |} in
   fold_left (fun '(t, o) k =>
                match dirty o k with
                | None => (t, o)
                | Some v =>
                  let ov := match origin o k with Some x => x | None => 0 end in
-                 if andb (negb rep) (Z.eqb v ov) then (t, o)
+                 if Z.eqb v ov then (t, o)
                  else ({| accs := accs t; stor := fun a' k' => if andb (Z.eqb a' a) (Z.eqb k' k) then v else stor t a' k' |},
-                       if rep then o else w_origin o k v)
+                       w_origin o k v)
                end) (dkeys o) (t1, o).
 
 Definition flush (s : sdb) (t : store) : store * sdb :=
@@ -119,7 +119,7 @@ Definition flush (s : sdb) (t : store) : store * sdb :=
                | None => (t, {| objs := objs s1; okeys := okeys s1; journal := journal s1; dirt := dset (dirt s1) a 0;
                                 txs := txs s1; cache := cache s1; calls := calls s1; repaired := repaired s1 |})
                | Some o =>
-                 let '(t', o') := flush_obj (repaired s) a o t in
+                 let '(t', o') := flush_obj a o t in
                  let s2 := set_objs s1 a (Some o') in
                  (t', {| objs := objs s2; okeys := okeys s2; journal := journal s2; dirt := dset (dirt s2) a 0;
                          txs := txs s2; cache := cache s2; calls := calls s2; repaired := repaired s2 |})
@@ -146,8 +146,9 @@ Definition undo (e : entry) (s : sdb) : sdb :=
     let s1 := with_cache s (Some saved) in
     if repaired s then
       let s2 := with_dirt s1 sd in
-      (* objects cached after the snapshot were loaded from the discarded store: evict them *)
-      fold_left (fun s a => if existsb (fun '(x, _) => Z.eqb x a) so then s else set_objs s a None) (okeys s2) s2
+      let s3 := fold_left (fun s '(a, f) => match objs s a with Some o => set_objs s a (Some (w_origin_all o f)) | None => s end) so s2 in
+      (* second repair: objects cached after the snapshot were loaded from the discarded store: evict them *)
+      fold_left (fun s a => if existsb (fun '(x, _) => Z.eqb x a) so then s else set_objs s a None) (okeys s3) s3
     else s1
   end.
 
